@@ -19,7 +19,7 @@ pub fn property() -> Property {
     Property {
         id: "C12",
         level: "fault_enumeration",
-        rule: "https requests carrying unique marker strings (path, query, header, cookie, body, Basic credentials) are sent through a scripted proxy connection (http and https proxy URLs, with and without userinfo; origin hosts domain/IPv4/IPv6 x default/explicit port). The proxy side is a scripted reply: EVERY status 100..999 (exhaustive; a logger at Trace level is installed for half of the cases), reply heads cut at EVERY byte offset, garbage heads, heads > 8 KiB, refusal bodies {empty, 11 B, 10 239, 10 240, 262 144 B, endless} with and without a Content-Length announced by the proxy, served whole / bytewise / in random segments; for 2xx replies the client is then spliced onto a live TLS server (bridge) whose certificate is either valid for the origin's name or only for the proxy's name (private CA added as root). Oracle on the transport trace, where every write carries the number of reply bytes the client had consumed: first bytes are `CONNECT origin-host:effective-port HTTP/1.1` (IPv6 bracketed); Proxy-Authorization decodes (standard Base64 alphabet) to the proxy URL's credentials, which include tildes at every offset modulo 3 and 300-character secrets; NO write between the end of the CONNECT head and the read that delivered the last byte of a 2xx reply head; NO byte written after a non-2xx, truncated or garbage reply; the error is ConnectError{status, body} with body <= 10 240 bytes and a prefix of what the proxy sent; no marker (plain or base64) in the raw bytes written to the proxy; the request decrypted inside the tunnel carries no Proxy-Authorization; the handshake succeeds against the certificate for the origin's name and fails against one valid only for the proxy's name. Every request comes from a Session whose default headers (X-Session-Key, Cookie) carry markers as well; refusals followed by a sticky I/O error (TimedOut/WouldBlock/ConnectionReset) instead of a close stay refusals (Err, nothing written afterwards). Non-trivial: every case; distinct = hash(reply bytes, segmentation, configuration).",
+        rule: "https requests carrying unique marker strings (path, query, header, cookie, body, Basic credentials) are sent through a scripted proxy connection (http and https proxy URLs, with and without userinfo; origin hosts domain/IPv4/IPv6 x default/explicit port). The proxy side is a scripted reply: EVERY status 100..999 (exhaustive; a logger at Trace level is installed for half of the cases), reply heads cut at EVERY byte offset, garbage heads, EVERY single-byte replacement of an agreeing head (position x byte value; a third of them in the quick tier), heads > 8 KiB, refusal bodies {empty, 11 B, 10 239, 10 240, 262 144 B, endless} with and without a Content-Length announced by the proxy, served whole / bytewise / in random segments; for 2xx replies the client is then spliced onto a live TLS server (bridge) whose certificate is either valid for the origin's name or only for the proxy's name (private CA added as root). Oracle on the transport trace, where every write carries the number of reply bytes the client had consumed: first bytes are `CONNECT origin-host:effective-port HTTP/1.1` (IPv6 bracketed); Proxy-Authorization decodes (standard Base64 alphabet) to the proxy URL's credentials, which include tildes at every offset modulo 3 and 300-character secrets; NO write between the end of the CONNECT head and the read that delivered the last byte of a 2xx reply head; NO byte written after a non-2xx, truncated or garbage reply; the error is ConnectError{status, body} with body <= 10 240 bytes and a prefix of what the proxy sent; no marker (plain or base64) in the raw bytes written to the proxy; the request decrypted inside the tunnel carries no Proxy-Authorization; the handshake succeeds against the certificate for the origin's name and fails against one valid only for the proxy's name. Every request comes from a Session whose default headers (X-Session-Key, Cookie) carry markers as well; refusals followed by a sticky I/O error (TimedOut/WouldBlock/ConnectionReset) instead of a close stay refusals (Err, nothing written afterwards). Non-trivial: every case; distinct = hash(reply bytes, segmentation, configuration).",
         assumptions: &["proxy credentials are drawn from unreserved characters (percent-decoding of userinfo is not fixed by the statement)", "the `Proxy-Authorization: Basic Og==` sent for proxies without credentials is recorded, not judged"],
         min_nontrivial: |t| t.pick(1_000, 10_000),
         gens,
@@ -36,6 +36,7 @@ fn gens(tier: Tier) -> Vec<Gen> {
         Gen { name: "refusal-then-io-error", count: (4 * 3 * 3) as u64, exhaustive: true, run: run_refusal_then_error },
         Gen { name: "matrix", count: (3 * 2 * 2 * 8 * 2) as u64, exhaustive: true, run: run_matrix },
         Gen { name: "garbage", count: tier.pick(800, 30_000), exhaustive: false, run: run_garbage },
+        Gen { name: "mutated-head-exhaustive", count: tier.pick((MUTATED_HEAD.len() * 256 / 3) as u64, (MUTATED_HEAD.len() * 256) as u64), exhaustive: tier == Tier::Thorough, run: run_mutated_head },
         Gen { name: "tunnels", count: tier.pick(400, 6_000), exhaustive: false, run: run_tunnel_random },
         Gen { name: "redirect-into-tunnel", count: tier.pick(30, 300), exhaustive: false, run: run_redirect_into_tunnel },
     ]
@@ -483,8 +484,20 @@ fn run_matrix(ctx: &mut Ctx, _rng: &mut Rng, index: u64) {
     ctx.sample(|| json!({"gen": "matrix", "proxy": cfg.proxy_url(), "origin": cfg.origin_url(), "connect_head": show(connect_head(&run.trace.written).unwrap_or(b""))}));
 }
 
+const MUTATED_HEAD: &[u8] = b"HTTP/1.1 200 Connection established\r\nProxy-Agent: x\r\n\r\n";
+
+/// EVERY single-byte replacement of a valid agreeing reply head (every position x every byte value)
+fn run_mutated_head(ctx: &mut Ctx, rng: &mut Rng, index: u64) {
+    // (quick tier: every third replacement, a stride coprime with the size of the space)
+    let total = (MUTATED_HEAD.len() * 256) as u64;
+    let index = if ctx.tier == Tier::Quick { (index * 3 + 1) % total } else { index };
+    let mut r = MUTATED_HEAD.to_vec();
+    r[(index / 256) as usize] = (index % 256) as u8;
+    ctx.count("single_byte_replacements_of_an_agreeing_head", 1);
+    run_garbage_reply(ctx, rng, index, r);
+}
+
 fn run_garbage(ctx: &mut Ctx, rng: &mut Rng, index: u64) {
-    let cfg = Config::basic();
     let reply: Vec<u8> = match index % 8 {
         // a 2xx status line followed by a header block that is not one: no agreement either
         7 => {
@@ -517,6 +530,11 @@ fn run_garbage(ctx: &mut Ctx, rng: &mut Rng, index: u64) {
             r
         }
     };
+    run_garbage_reply(ctx, rng, index, reply);
+}
+
+fn run_garbage_reply(ctx: &mut Ctx, rng: &mut Rng, index: u64, reply: Vec<u8>) {
+    let cfg = Config::basic();
     let descr = |x: &str| format!("{x}; garbage CONNECT reply {}", show(&reply));
     let mut steps = seg(rng, index / 8, &reply);
     steps.push(Step::Eof);
@@ -560,18 +578,18 @@ pub fn looks_like_2xx(reply: &[u8]) -> bool {
         None => return false,
     }
     // ... followed by a well-formed header block of at most 100 fields, up to its blank line
+    // (field lines end at CRLF: the library reads them with a strict line reader for which a bare LF
+    //  is part of the line - so a bare LF before the colon makes an invalid NAME, see below, and one
+    //  after it an invalid value)
     let mut rest = &reply[line_end + 1..];
     let mut fields = 0;
     loop {
-        let end = match rest.iter().position(|&b| b == b'\n') {
+        let end = match rest.windows(2).position(|w| w == b"\r\n") {
             Some(i) => i,
             None => return false,
         };
-        let mut line = &rest[..end];
-        if line.last() == Some(&b'\r') {
-            line = &line[..line.len() - 1];
-        }
-        rest = &rest[end + 1..];
+        let line = &rest[..end];
+        rest = &rest[end + 2..];
         if line.is_empty() {
             return true;
         }
@@ -584,7 +602,8 @@ pub fn looks_like_2xx(reply: &[u8]) -> bool {
         //  documented leniency, so such a head still counts as a 2xx head here)
         let _ = colon;
         let name_ok = true;
-        let value_ok = line[colon + 1..].iter().all(|&b| b == b'\t' || (b >= 0x20 && b != 0x7f));
+        // (a bare LF inside a value is turned into a blank by the library, in every response)
+        let value_ok = line[colon + 1..].iter().all(|&b| b == b'\t' || b == b'\n' || (b >= 0x20 && b != 0x7f));
         if !name_ok || !value_ok || fields > 100 {
             return false;
         }
